@@ -194,7 +194,7 @@ def main(ctx):
     ctx.exhaustive = True
     ctx.total.extra["exhaustive_part"] = "all %d regex ASTs with <= %d nodes over leaves {a, b, ., [^a], \\w | [^00-7f]} in text and binary spelling" % (total, maxn)
     n = 500 if quick else 8000
-    stop_at = time.time() + (60 if quick else 1500)
+    stop_at = time.time() + (60 if quick else 900)
     ctx.pmap(random_worker, [(ctx.seed * 100003 + i, n, known, stop_at) for i in range(common.NPROC)])
     ctx.rule = ("case = regex AST (exhaustive up to %d nodes over 5 leaves, both spellings; Hypothesis-generated deeper ones with classes, ranges, "
                 "inverted sets, repeats; binary alternations of inverted sets with complementary ranges); each is decided exactly by product "
